@@ -44,7 +44,7 @@ enum Kind {
 }
 
 /// (header value, classification)
-const TABLE: [(&str, Kind); 18] = [
+const TABLE: [(&str, Kind); 27] = [
     ("application/json", Kind::Json),
     ("application/json; charset=utf-8", Kind::Json),
     ("application/hal+json", Kind::Json),
@@ -63,6 +63,17 @@ const TABLE: [(&str, Kind); 18] = [
     ("multipart/form-data; boundary=x", Kind::Other),
     ("hello world", Kind::NotAMediaType),
     ("json", Kind::NotAMediaType),
+    // look-alikes: a subtype that merely ends in / starts with the expected word, the suffix under
+    // another top-level type, the expected subtype as a suffix
+    ("application/x-ndjson", Kind::Other),
+    ("text/vnd.acme+json", Kind::Other),
+    ("application/vnd.api+json", Kind::Json),
+    ("application/x-www-form-urlencoded-v2", Kind::Other),
+    ("application/www-form-urlencoded", Kind::Other),
+    ("application/vnd.x+x-www-form-urlencoded", Kind::Other),
+    ("image/svg+json", Kind::Other),
+    ("application/octet-stream", Kind::Other),
+    ("application/jsonld", Kind::Other),
 ];
 
 fn fmt_stub(_a: std::fmt::Arguments<'_>) -> String {
@@ -134,6 +145,11 @@ fn any_body() -> ([u8; MAX_BODY], usize) {
     let mut i = 0;
     while i < MAX_BODY {
         b[i] = nd::any_u8();
+        // native search only (making a counterexample concrete): prefer bytes that matter to a parser
+        #[cfg(test)]
+        if nd::searching() {
+            b[i] = b"a %+&=\n/2\t\"\xC3 k}"[b[i] as usize % 16];
+        }
         i += 1;
     }
     (b, len)
@@ -202,15 +218,15 @@ fn run_json(h: Hdr) -> bool {
 }
 
 // @tier quick
-// @obligation JsonBody::extract, Content-Type absent / not visible ASCII / one of 18 constant values (JSON, +json suffix, parameters, upper case, form, look-alikes such as application/jsonx, text/json, application/hal+xml, not a media type), any body of <= 4 bytes, parser succeeding or failing: Ok only for a JSON media type, and then the parser was handed exactly the buffered bytes and its value is returned; a refusal is the documented error for the situation (missing / mismatch / deserialization), never a deserialization error for a wrong media type
-// @bounds body <= 4 arbitrary bytes; Content-Type from a table of 18 constants + absent + non-ASCII; a second header in front or not
+// @obligation JsonBody::extract, Content-Type absent / not visible ASCII / one of 27 constant values (JSON, +json suffix, parameters, upper case, form, look-alikes such as application/jsonx, application/x-ndjson, text/json, text/vnd.acme+json, application/hal+xml, not a media type), any body of <= 4 bytes, parser succeeding, failing, or finding trailing characters after the first JSON value: Ok only for a JSON media type and a body that is exactly one JSON document, and then the parser was handed exactly the buffered bytes and its value is returned; a refusal is the documented error for the situation (missing / mismatch / deserialization), never a deserialization error for a wrong media type
+// @bounds body <= 4 arbitrary bytes; Content-Type: Hdr::Absent, Hdr::NotAscii, Hdr::Text(0), Hdr::Text(1), Hdr::Text(2), Hdr::Text(3), Hdr::Text(4), Hdr::Text(5), Hdr::Text(6), Hdr::Text(7) (constants per call site; Text(i) = entry i of TABLE in harness/bodyq/c15b.rs)
 // @functions JsonBody::extract, check_json_content_type, mime shim
 // @timeout 600
 // @mem 16
 #[kani::proof]
 #[kani::unwind(60)]
 #[kani::stub(std::fmt::format, fmt_stub)]
-fn c15b_json_first_half() {
+fn c15b_json_part1() {
     let c = nd::u8_below(10);
     let ok = match c {
         0 => run_json(Hdr::Absent),
@@ -229,15 +245,15 @@ fn c15b_json_first_half() {
 }
 
 // @tier quick
-// @obligation JsonBody::extract, second half of the Content-Type table (see c15b_json_first_half)
-// @bounds body <= 4 arbitrary bytes; Content-Type values 8..18 of the table
+// @obligation as c15b_json_part1, for another part of the Content-Type table
+// @bounds body <= 4 arbitrary bytes; Content-Type: Hdr::Text(8), Hdr::Text(9), Hdr::Text(10), Hdr::Text(11), Hdr::Text(12), Hdr::Text(13), Hdr::Text(14), Hdr::Text(15), Hdr::Text(16), Hdr::Text(17) (constants per call site; Text(i) = entry i of TABLE in harness/bodyq/c15b.rs)
 // @functions JsonBody::extract, check_json_content_type, mime shim
 // @timeout 600
 // @mem 16
 #[kani::proof]
 #[kani::unwind(60)]
 #[kani::stub(std::fmt::format, fmt_stub)]
-fn c15b_json_second_half() {
+fn c15b_json_part2() {
     let c = nd::u8_below(10);
     let ok = match c {
         0 => run_json(Hdr::Text(8)),
@@ -252,6 +268,32 @@ fn c15b_json_second_half() {
         _ => run_json(Hdr::Text(17)),
     };
     kani::cover!(c == 3 && !ok, "application/jsonx is refused");
+}
+
+// @tier quick
+// @obligation as c15b_json_part1, for another part of the Content-Type table
+// @bounds body <= 4 arbitrary bytes; Content-Type: Hdr::Text(18), Hdr::Text(19), Hdr::Text(20), Hdr::Text(21), Hdr::Text(22), Hdr::Text(23), Hdr::Text(24), Hdr::Text(25), Hdr::Text(26) (constants per call site; Text(i) = entry i of TABLE in harness/bodyq/c15b.rs)
+// @functions JsonBody::extract, check_json_content_type, mime shim
+// @timeout 600
+// @mem 16
+#[kani::proof]
+#[kani::unwind(60)]
+#[kani::stub(std::fmt::format, fmt_stub)]
+fn c15b_json_part3() {
+    let c = nd::u8_below(9);
+    let ok = match c {
+        0 => run_json(Hdr::Text(18)),
+        1 => run_json(Hdr::Text(19)),
+        2 => run_json(Hdr::Text(20)),
+        3 => run_json(Hdr::Text(21)),
+        4 => run_json(Hdr::Text(22)),
+        5 => run_json(Hdr::Text(23)),
+        6 => run_json(Hdr::Text(24)),
+        7 => run_json(Hdr::Text(25)),
+        _ => run_json(Hdr::Text(26)),
+    };
+    kani::cover!(c == 2 && ok, "application/vnd.api+json is accepted");
+    kani::cover!(c == 0 && !ok, "application/x-ndjson is refused");
 }
 
 // ---------------------------------------------------------------------------------------------
@@ -301,15 +343,15 @@ fn run_form(h: Hdr) -> bool {
 }
 
 // @tier quick
-// @obligation UrlEncodedBody::extract, Content-Type absent / not visible ASCII / constant values 0..8 of the table, any body of <= 4 bytes, parser succeeding or failing: Ok only for application/x-www-form-urlencoded (parameters and case ignored), and then the parser was handed exactly the buffered bytes (nothing decoded before the parser: percent-decoding happens once) and its value is returned; a refusal is the documented error for the situation
-// @bounds body <= 4 arbitrary bytes; Content-Type from the table + absent + non-ASCII
+// @obligation UrlEncodedBody::extract, Content-Type absent / not visible ASCII / one of 27 constant values, any body of <= 4 bytes, parser succeeding or failing: Ok only for application/x-www-form-urlencoded (parameters and case ignored), and then the parser was handed exactly the buffered bytes (nothing decoded or trimmed before the parser: percent-decoding happens once) and its value is returned; a refusal is the documented error for the situation
+// @bounds body <= 4 arbitrary bytes; Content-Type: Hdr::Absent, Hdr::NotAscii, Hdr::Text(0), Hdr::Text(1), Hdr::Text(2), Hdr::Text(3), Hdr::Text(4), Hdr::Text(5), Hdr::Text(6), Hdr::Text(7) (constants per call site; Text(i) = entry i of TABLE in harness/bodyq/c15b.rs)
 // @functions UrlEncodedBody::extract, check_urlencoded_content_type, url_encoded::parse, mime shim
 // @timeout 600
 // @mem 16
 #[kani::proof]
 #[kani::unwind(60)]
 #[kani::stub(std::fmt::format, fmt_stub)]
-fn c15b_form_first_half() {
+fn c15b_form_part1() {
     let c = nd::u8_below(10);
     let ok = match c {
         0 => run_form(Hdr::Absent),
@@ -328,15 +370,15 @@ fn c15b_form_first_half() {
 }
 
 // @tier quick
-// @obligation UrlEncodedBody::extract, second half of the Content-Type table (see c15b_form_first_half)
-// @bounds body <= 4 arbitrary bytes; Content-Type values 8..18 of the table
+// @obligation as c15b_form_part1, for another part of the Content-Type table
+// @bounds body <= 4 arbitrary bytes; Content-Type: Hdr::Text(8), Hdr::Text(9), Hdr::Text(10), Hdr::Text(11), Hdr::Text(12), Hdr::Text(13), Hdr::Text(14), Hdr::Text(15), Hdr::Text(16), Hdr::Text(17) (constants per call site; Text(i) = entry i of TABLE in harness/bodyq/c15b.rs)
 // @functions UrlEncodedBody::extract, check_urlencoded_content_type, url_encoded::parse, mime shim
 // @timeout 600
 // @mem 16
 #[kani::proof]
 #[kani::unwind(60)]
 #[kani::stub(std::fmt::format, fmt_stub)]
-fn c15b_form_second_half() {
+fn c15b_form_part2() {
     let c = nd::u8_below(10);
     let ok = match c {
         0 => run_form(Hdr::Text(8)),
@@ -351,6 +393,31 @@ fn c15b_form_second_half() {
         _ => run_form(Hdr::Text(17)),
     };
     kani::cover!(c == 6 && !ok, "text/x-www-form-urlencoded is refused");
+}
+
+// @tier quick
+// @obligation as c15b_form_part1, for another part of the Content-Type table
+// @bounds body <= 4 arbitrary bytes; Content-Type: Hdr::Text(18), Hdr::Text(19), Hdr::Text(20), Hdr::Text(21), Hdr::Text(22), Hdr::Text(23), Hdr::Text(24), Hdr::Text(25), Hdr::Text(26) (constants per call site; Text(i) = entry i of TABLE in harness/bodyq/c15b.rs)
+// @functions UrlEncodedBody::extract, check_urlencoded_content_type, url_encoded::parse, mime shim
+// @timeout 600
+// @mem 16
+#[kani::proof]
+#[kani::unwind(60)]
+#[kani::stub(std::fmt::format, fmt_stub)]
+fn c15b_form_part3() {
+    let c = nd::u8_below(9);
+    let ok = match c {
+        0 => run_form(Hdr::Text(18)),
+        1 => run_form(Hdr::Text(19)),
+        2 => run_form(Hdr::Text(20)),
+        3 => run_form(Hdr::Text(21)),
+        4 => run_form(Hdr::Text(22)),
+        5 => run_form(Hdr::Text(23)),
+        6 => run_form(Hdr::Text(24)),
+        7 => run_form(Hdr::Text(25)),
+        _ => run_form(Hdr::Text(26)),
+    };
+    kani::cover!(c == 3 && !ok, "a subtype that starts with the form subtype is refused");
 }
 
 // ---------------------------------------------------------------------------------------------
@@ -372,7 +439,7 @@ fn c15b_query() {
     while i < MAX_BODY {
         #[cfg(test)]
         if nd::searching() {
-            b[i] = b"a%+&=2 5"[b[i] as usize % 8];
+            b[i] = b"a%+&=2/5"[b[i] as usize % 8];
         }
         nd::assume(b[i] < 128);
         i += 1;
@@ -411,5 +478,5 @@ mod native_search {
     macro_rules! ns {
         ($($name:ident),*) => { $( #[test] fn $name() { nd::search(stringify!($name), super::$name, reset); } )* };
     }
-    ns!(c15b_json_first_half, c15b_json_second_half, c15b_form_first_half, c15b_form_second_half, c15b_query);
+    ns!(c15b_json_part1, c15b_json_part2, c15b_json_part3, c15b_form_part1, c15b_form_part2, c15b_form_part3, c15b_query);
 }
